@@ -1210,7 +1210,35 @@ def eval_dedup(desc, ev):
 
 
 # ====================================================================== evaluate
+class _Timeout(BaseException):
+    pass
+
+
+CASE_TIMEOUT = 20
+
+
 def evaluate(desc):
+    """every case runs under a wall-clock limit: a reader that does not terminate is a failure, not a hang"""
+    import signal
+
+    def _h(*a):
+        raise _Timeout()
+
+    old = signal.signal(signal.SIGALRM, _h)
+    signal.alarm(CASE_TIMEOUT)
+    try:
+        return evaluate_(desc)
+    except _Timeout:
+        ev = Eval()
+        ev.oracle = ["timeout: writing/loading the match file did not finish within %d s" % CASE_TIMEOUT]
+        ev.key = None
+        return ev
+    finally:
+        signal.alarm(0)
+        signal.signal(signal.SIGALRM, old)
+
+
+def evaluate_(desc):
     k = desc["k"]
     ev = Eval()
     if k == "rt":
